@@ -1,6 +1,6 @@
 (* C07 — File conflicts follow replaces/origin rules; the installed DB tells
    the truth. Property theorems only; proofs in Proofs/InstallProofs.v. *)
-From Apko Require Import Base.Prelude Base.C07Lib Generated.C07Install Generated.FsConsts Model.Install Spec.InstallSpec Proofs.InstallProofs.
+From Apko Require Import Base.Prelude Base.C07Lib Generated.C07Install Generated.FsConsts Model.Install Model.InstallInode Model.InstallDb Spec.InstallSpec Proofs.InstallProofs Proofs.InstallProvProofs Proofs.InstallInodeProofs Proofs.InstallDbProofs.
 Open Scope string_scope. Open Scope list_scope.
 
 (* tarfs.writeHeader decides exactly by the rule table whenever at least one of
@@ -321,7 +321,207 @@ Print Assumptions c07_rules_validator_decides.
 
 (* ... and so does the per-entry validator (every recorded entry exists with the
    recorded kind, mode, owner and content) *)
-Theorem c07_entry_validator_decides : forall b pre tree fm al th d,
-  check_entry b pre tree fm al th d = [] <-> EntryTrue tree d.
+Theorem c07_entry_validator_decides : forall b pre tree fm al th dp d,
+  check_entry b pre tree fm al th dp d = [] <-> EntryTrue tree d.
 Proof. exact entry_validator_decides. Qed.
 Print Assumptions c07_entry_validator_decides.
+
+(* ==== provenance of the tree; the database theorem derived from it ============
+   Every non-directory node of the final tree is either still the node that was
+   there before the install (and nobody is recorded as its owner), or was
+   written by a header OF THAT PATH which its package ships and which is on the
+   package's list of installed files: a regular-file header (then the node has
+   the header's bytes and mode, its tar entry names the package and
+   installedFiles names the package for the path), a symbolic-link header (the
+   node has the header's target and names the package; on the streaming
+   backends nobody is recorded for the path), or a hard-link header (the node is
+   a regular file whose bytes are those of a regular-file header on some
+   package's list, or were there before; nobody is recorded for the name).
+   For every backend, package list and initial tree on which the model answers
+   (no path reached through a symbolic link: finding C07-F14 is outside). *)
+Theorem c07_provenance : forall b pkgs init f,
+  install b pkgs init = RDone f ->
+  forall p n, fs_get (f_fs f) p = Some n ->
+    is_dir_node n \/
+    (fs_get init p = Some n /\ if_get (f_if f) p = None) \/
+    exists k h, In h (p_files (nth k pkgs no_pkg)) /\ In h (nth k (f_files f) []) /\ h_path h = p /\
+      match h_kind h with
+      | KReg => n = NFile (h_sum h) (h_mode h) (Some k) true /\ if_get (f_if f) p = Some k
+      | KSym => n = NSym (h_sum h) (Some k) (h_link h) /\ (is_lazy b = false -> if_get (f_if f) p = None)
+      | KLink => (exists sm md ow dt, n = NFile sm md ow dt) /\
+                 content_src init (fun k => nth k (f_files f) []) n /\ if_get (f_if f) p = None
+      | KDir => False
+      end.
+Proof. exact provenance. Qed.
+Print Assumptions c07_provenance.
+
+(* the invariant behind it is preserved by EVERY successful step of the model:
+   any backend, any header kind, any state, no hypothesis on the package list *)
+Theorem c07_provenance_preserved : forall b pkgs init i me s h s' app L acc,
+  prov b init s (upd L i acc) ->
+  step b pkgs i me s h = IOk (s', app) ->
+  prov b init s' (upd L i (if app then acc ++ [h] else acc)).
+Proof. exact prov_step. Qed.
+Print Assumptions c07_provenance_preserved.
+
+(* THE DATABASE TELLS THE TRUTH, inside the envelope: every path is shipped
+   with one kind ([one_kind_per_path]: no regular file over a link or the
+   reverse, C07-F5/F13, no regular file at a hard link's name), by no package
+   twice ([nodup_paths], C07-F16), and nothing shipped as a file or link was in
+   the tree before ([fresh_paths], C07-F8). Then for EVERY (package, header)
+   record of the final database ([record_true], Proofs/InstallProvProofs.v):
+     directory     -> the tree holds a directory there;
+     regular file  -> the tree holds exactly this header's bytes and mode, the
+                      node is this package's, installedFiles names this package
+                      (the last writer by the rules), and no other stanza lists
+                      the path;
+     symbolic link -> the tree holds a link written by a link header of a
+                      package that lists it; on the streaming backends it is
+                      this record, on tarfs it carries this record's target
+                      whenever the packages agree on the target ([links_agree];
+                      otherwise the record may be stale: C07-F5, refuted above);
+     hard link     -> the tree holds a regular file whose bytes are those of a
+                      regular-file header on some package's list; nobody is
+                      recorded as the owner of the name.
+   Not claimed: the recorded MODE of directories and hard links (C07-F2, F9) and
+   uid/gid (C07-F1) - see the _refuted theorems. *)
+Theorem c07_db_records_true : forall b pkgs init f,
+  install b pkgs init = RDone f ->
+  nodup_paths pkgs -> one_kind_per_path pkgs -> fresh_paths pkgs init ->
+  (forall h, In h (all_hdrs pkgs) -> h_path h <> []) ->
+  forall k entries h, nth_error (f_db f) k = Some entries -> In h entries -> record_true b pkgs init f k h.
+Proof. exact db_records_true. Qed.
+Print Assumptions c07_db_records_true.
+
+Example c07_db_records_true_inhabited :
+  (nodup_paths wit_prov_pkgs /\ one_kind_per_path wit_prov_pkgs /\ fresh_paths wit_prov_pkgs [] /\
+   links_agree wit_prov_pkgs /\ (forall h, In h (all_hdrs wit_prov_pkgs) -> h_path h <> [])) /\
+  exists f ea eb,
+    install Lazy wit_prov_pkgs [] = RDone f /\
+    nth_error (f_db f) 0 = Some ea /\ nth_error (f_db f) 1 = Some eb /\
+    In wit_hlx ea /\ In (wit_sx 2) ea /\ In (wit_sx 2) eb /\
+    fs_get (f_fs f) ["usr"; "bin"; "lx"] = Some (NFile 2 493 (Some 0) true) /\
+    fs_get (f_fs f) ["usr"; "bin"; "x"] = Some (NFile 3 448 (Some 1) true).
+Proof. exact (conj wit_prov_in_envelope wit_prov_lazy). Qed.
+
+(* without [fresh_paths] the statement is false on every backend (C07-F8): the
+   file that was there stays, owned by nobody, and the header is recorded *)
+Theorem c07_db_records_true_needs_fresh_refuted : forall b, exists pkgs init f entries h,
+  install b pkgs init = RDone f /\ nth_error (f_db f) 0 = Some entries /\ In h entries /\ h_kind h = KReg /\
+  fs_get (f_fs f) (h_path h) <> Some (NFile (h_sum h) (h_mode h) (Some 0) true) /\ if_get (f_if f) (h_path h) = None.
+Proof.
+  intro b. destruct (db_records_true_needs_fresh b) as (f & entries & A & B & C & D & E).
+  eexists _, _, f, entries, wit_hx. repeat split; eauto. rewrite D. discriminate.
+Qed.
+Print Assumptions c07_db_records_true_needs_fresh_refuted.
+
+(* ==== hard links ==============================================================
+   In the three filesystems a hard link is a second NAME for one node.
+   Model/InstallInode.v transcribes the install over names and a node heap
+   ([alloc] a new node under a name, [bind] a second name, [mutate] re-pointing
+   in place). goextract reads off tarfs.writeHeader that an allowed replacement
+   stores a NEW node under the name and assigns to no field of the old one
+   ([c07_lazy_replace_allocates]), and off both link functions that the new name
+   is bound to the target's node itself. With that:
+   no step changes a node in place, only the header's own name is (re-)bound,
+   so EVERY OTHER NAME of a node keeps its content whatever the rule table does
+   to the header's path: a later package that re-ships a link's TARGET replaces
+   the target's name only. (Seeded change C07-4 re-pointed the node in place:
+   the generated switch turns false, this proof and the next break, and the
+   witness below shows what the tree then looks like.)
+   The real tarfs departs from this model when ONE package ships the target's
+   name twice: it reads bytes by name (finding C07-F17, replayed by the
+   harness). *)
+Theorem c07_hardlink_names_keep_content : forall b pkgs i me x h y app,
+  wf x -> step_i c07_lazy_replace_allocates b pkgs i me x h = ROk (y, app) ->
+  (forall id, id < List.length (i_heap x) -> heap_get (i_heap y) id = heap_get (i_heap x) id) /\
+  (h_kind h <> KDir ->
+     (forall q, q <> h_path h -> nm_get (i_names y) q = nm_get (i_names x) q) /\
+     (forall q, q <> h_path h -> fs_get (view_fs y) q = fs_get (view_fs x) q)).
+Proof. exact hardlink_names_keep. Qed.
+Print Assumptions c07_hardlink_names_keep_content.
+
+(* ... and the flat model of the theorems above (a hard link = a copy of the
+   node) is exactly what a reader of the names-and-heap model sees, step by
+   step, errors included: the whole install gives the same result *)
+Theorem c07_inode_model_refines : forall b pkgs init,
+  install_i c07_lazy_replace_allocates b pkgs init = install b pkgs init.
+Proof. exact inode_refines. Qed.
+Print Assumptions c07_inode_model_refines.
+
+Theorem c07_link_and_replace_are_source :
+  c07_lazy_replace_allocates = true /\ c07_lazy_replace_mutates = [] /\
+  c07_tarfs_link_binds_target = true /\ c07_memfs_link_binds_target = true.
+Proof. repeat split; reflexivity. Qed.
+Print Assumptions c07_link_and_replace_are_source.
+
+Example c07_hardlink_inhabited : exists x y,
+  install_files_i true Lazy wit_ab 0 (nth 0 wit_ab no_pkg) (ist_of []) [] wit_a_files = ROk (x, wit_a_files) /\
+  step_i true Lazy wit_ab 1 (nth 1 wit_ab no_pkg) x wit_b_x = ROk (y, true) /\
+  fs_get (view_fs y) ["usr"; "bin"; "lx"] = Some (NFile 2 493 (Some 0) true) /\
+  fs_get (view_fs y) ["usr"; "bin"; "x"] = Some (NFile 3 448 (Some 1) true).
+Proof. exact fresh_keeps_other_names. Qed.
+
+(* were the node re-pointed in place, the link's name would show b's bytes *)
+Theorem c07_inplace_replace_changes_other_names_refuted : exists x y,
+  install_files_i false Lazy wit_ab 0 (nth 0 wit_ab no_pkg) (ist_of []) [] wit_a_files = ROk (x, wit_a_files) /\
+  wf x /\
+  step_i false Lazy wit_ab 1 (nth 1 wit_ab no_pkg) x wit_b_x = ROk (y, true) /\
+  fs_get (view_fs x) ["usr"; "bin"; "lx"] = Some (NFile 2 493 (Some 0) true) /\
+  fs_get (view_fs y) ["usr"; "bin"; "lx"] = Some (NFile 3 448 (Some 1) true).
+Proof. exact inplace_changes_other_names. Qed.
+Print Assumptions c07_inplace_replace_changes_other_names_refuted.
+
+(* ==== one package ships a path twice ==========================================
+   Both decision procedures then meet the package's own earlier copy: *)
+Theorem c07_self_clash_rows : forall me gs ws,
+  decide_lazy me me gs ws = (if N.eqb gs ws then KeepOld else if declares me me then KeepOld else Overwrite) /\
+  decide_stream (Some me) me (N.eqb gs ws) =
+    (if String.eqb (p_origin me) "" then SErrExists
+     else SDec (if N.eqb gs ws then KeepOld else if declares me me then KeepOld else Overwrite)).
+Proof. exact self_rows. Qed.
+Print Assumptions c07_self_clash_rows.
+
+(* the LATER copy of a path wins inside one package (every backend; the
+   streaming ones need an origin, C07-F4); identical bytes leave the FIRST copy
+   in place, with its mode *)
+Theorem c07_dup_later_copy_wins : forall b pkgs i s h1 h2,
+  let me := nth i pkgs no_pkg in
+  h_kind h1 = KReg -> h_kind h2 = KReg -> h_path h2 = h_path h1 ->
+  dir_state (s_fs s) (parent (h_path h1)) = PDir ->
+  fs_get (s_fs s) (h_path h1) = Some (NFile (h_sum h1) (h_mode h1) (Some i) true) ->
+  if_get (s_if s) (h_path h1) = Some i ->
+  declares me me = false ->
+  (is_lazy b = false -> p_origin me <> "") ->
+  step b pkgs i me s h2 = IOk (if N.eqb (h_sum h1) (h_sum h2) then s else set_file s i h2, true).
+Proof. exact dup_later_copy_wins. Qed.
+Print Assumptions c07_dup_later_copy_wins.
+
+(* The database writer (sortTarHeaders) keeps ONE header per name - the last -
+   and writes it once per occurrence ([db_of], Model/InstallDb.v: what the
+   correspondence compares with the real text). When no package ships a path
+   twice it writes exactly [f_db]: every theorem about [f_db] above is one about
+   the compared writer. xattrs and times of the headers are written nowhere in
+   the database (the model has no fields for them). *)
+Theorem c07_db_writer_nodup : forall b pkgs init f,
+  install b pkgs init = RDone f -> strict_nodup_paths pkgs -> top_childless_pkgs pkgs ->
+  forall k entries, nth_error (db_of f) k = Some entries ->
+    exists entries', nth_error (f_db f) k = Some entries' /\ forall y, In y entries <-> In y entries'.
+Proof. exact db_of_nodup. Qed.
+Print Assumptions c07_db_writer_nodup.
+
+(* ... and when a package does, the record is the last header's whatever the
+   clash decided: the same bytes 0755 then 0700 leave the first copy (0755) in
+   the tree and 0700 (twice) in the database, on every backend (C07-F16) *)
+Theorem c07_dup_db_records_last_header_refuted : forall b,
+  ~ (forall pkgs init f, install b pkgs init = RDone f ->
+       forall k entries h, nth_error (db_of f) k = Some entries -> In h entries -> h_kind h = KReg ->
+         exists sm ow dt, fs_get (f_fs f) (h_path h) = Some (NFile sm (h_mode h) ow dt)).
+Proof. exact dup_records_last_refuted. Qed.
+Print Assumptions c07_dup_db_records_last_header_refuted.
+
+Example c07_dup_inhabited : forall b, exists f,
+  install b [ {| p_name := "a"; p_origin := "a"; p_replaces := []; p_files := wit_dirs ++ [wit_hx; wit_x3] |} ] [] = RDone f /\
+  nth_error (db_of f) 0 = Some (wit_dirs ++ [wit_x3; wit_x3]) /\
+  fs_get (f_fs f) (h_path wit_x3) = Some (NFile 3 448 (Some 0) true).
+Proof. exact dup_other_bytes. Qed.
